@@ -315,6 +315,7 @@ def main_c04():
     n_int = 12 if quick else 400
     evals = 0
     undecided = {}
+    pending, agree_somewhere = [], set()
     by_tag = {}
     for c in cells:
         by_tag.setdefault(c["prog"].split(":", 1)[1], []).append(c)
@@ -369,8 +370,18 @@ def main_c04():
                 chk.violation({"gate": gate, "param": pv, "what": "rate function differs from the published equation",
                                "verified": g["verified"] if g["verified"] == "source_offline" else "corroborated_elsewhere"}, bad)
             else:
-                # the published entry is transcribed from memory: a disagreement cannot be decided here
-                undecided[tag] = bad
+                # the published entry is transcribed from memory: decided below, once every parameter value of the gate was seen
+                pending.append((gate, pv, tag, bad))
+        else:
+            agree_somewhere.add(gate)
+    # a gate whose transcription the code reproduces exactly for SOME value of its parameter is corroborated as a whole: the two
+    # formulas are the same function of (v, parameter) up to where the code leaves it
+    for gate, pv, tag, bad in pending:
+        if gate in agree_somewhere:
+            chk.violation({"gate": gate, "param": pv, "what": "rate function differs from the published equation",
+                           "verified": "corroborated_at_another_parameter_value"}, bad)
+        else:
+            undecided[tag] = bad
     # currents and defaults
     import importlib
     ncur = 0
@@ -386,9 +397,14 @@ def main_c04():
         if set(dflt) != set(M.channel_params):
             chk.violation({"mechanism": name, "what": "parameter set differs from the published model"},
                           {"got": sorted(M.channel_params), "want": sorted(dflt)})
-        for _ in range(20 if quick else 400):
+        ntot = 20 if quick else 400
+        agrees_at_defaults = True
+        for it_ in range(ntot + 8):
             v = float(rng.uniform(-150, 100))
-            params = {k: float(val) * float(rng.uniform(0.5, 2.0)) for k, val in M.channel_params.items()}
+            # the first 8 evaluations use the default parameters: a transcription from memory that the code reproduces there
+            # is corroborated, and a disagreement that appears only once the parameters move is the code's
+            fac = (lambda: 1.0) if it_ < 8 else (lambda: float(rng.uniform(0.5, 2.0)))
+            params = {k: float(val) * fac() for k, val in M.channel_params.items()}
             states = {k: float(rng.uniform(0, 1)) for k in M.channel_states}
             got = float(M.compute_current({k: jnp.asarray(x) for k, x in states.items()}, jnp.asarray(v),
                                           {k: jnp.asarray(x) for k, x in params.items()}))
@@ -396,9 +412,13 @@ def main_c04():
             ncur += 1
             if abs(mp.mpf(got) - want) > 1e-9 * (abs(want) + mp.mpf("1e-12")):
                 lvl = cur["verified"]
-                (chk.violation if lvl == "source_offline" else lambda s, d: undecided.__setitem__("current:" + name, d))(
+                if it_ < 8:
+                    agrees_at_defaults = False
+                decided = lvl == "source_offline" or (it_ >= 8 and agrees_at_defaults)
+                (chk.violation if decided else lambda s, d: undecided.__setitem__("current:" + name, d))(
                     {"mechanism": name, "what": "current differs from the published equation"},
-                    {"v": v, "params": params, "states": states, "got": got, "published": float(want)})
+                    {"v": v, "params": params, "states": states, "got": got, "published": float(want),
+                     "verified": lvl if lvl == "source_offline" else "corroborated_at_default_parameters"})
                 break
     evals += ncur
     # renaming changes only names: prefixes incl. ones that are prefixes of parameter names
